@@ -6,7 +6,7 @@ from vf.common import Check, assert_repo_import, tier, seed, parmap
 from vf import gen, e1run, hooks
 
 KINDS = ("under_constrained", "over_constrained", "returned_values_violate", "spurious_failure", "missed_failure", "other_exception",
-         "bound_excludes", "order_violation", "nonrandom_changed")
+         "bound_excludes", "order_violation", "nonrandom_changed", "not_randomised")
 
 
 def _kernel(cfg):
